@@ -10,7 +10,7 @@ harness Harness/HC18_sched.v).
     unmodified generators over several shapes."""
 import time
 
-from vt.c18_util import boollist, coq_cases, ensure_dirs, natlist, natmat, patched, queue_fn, quiet_logs, run_jobs, zs_floor, zzmat, zlist
+from vt.c18_util import bulk, boollist, coq_cases, ensure_dirs, natlist, natmat, patched, queue_fn, quiet_logs, run_jobs, zs_floor, zzmat, zlist
 from vt.common import cz
 
 HEADER = ("From Coq Require Import List ZArith Bool.\nFrom RL4CO Require Import Env.FJSP Data.GenSched Harness.HC18_sched.\n"
@@ -145,17 +145,17 @@ def run_unit(ctx, proofs_ok):
 
     # ------------------------------------------------------------------ (a) unmodified generators
     cases, metas = [], []
-    B = 48 if thorough else 4
+    B0 = 48 if thorough else 4
     fj_shapes = [dict(), dict(num_jobs=3, num_machines=2, min_ops_per_job=1, max_ops_per_job=3),
                  dict(num_jobs=5, num_machines=3, min_ops_per_job=2, max_ops_per_job=2, same_mean_per_op=False),
                  dict(num_jobs=6, num_machines=4, min_ops_per_job=1, max_ops_per_job=5, max_eligible_ma_per_op=2),
                  dict(num_jobs=4, num_machines=6, min_ops_per_job=3, max_ops_per_job=4, min_eligible_ma_per_op=2, min_processing_time=2, max_processing_time=7)]
     if thorough:
         fj_shapes += [dict(num_jobs=20, num_machines=10), dict(num_jobs=15, num_machines=8, min_ops_per_job=2, max_ops_per_job=9, same_mean_per_op=False)]
-    fj_plan = [(kw, B) for kw in fj_shapes]
+    fj_plan = [(kw, B0) for kw in fj_shapes]
     if thorough:      # bulk: 10^4 small rows
-        fj_plan += [(dict(num_jobs=3, num_machines=2, min_ops_per_job=1, max_ops_per_job=3), 1000)] * 6 + \
-                   [(dict(num_jobs=2, num_machines=3, min_ops_per_job=2, max_ops_per_job=4, same_mean_per_op=False), 1000)] * 4
+        fj_plan += [(dict(num_jobs=3, num_machines=2, min_ops_per_job=1, max_ops_per_job=3), 1000)] * bulk(6) + \
+                   [(dict(num_jobs=2, num_machines=3, min_ops_per_job=2, max_ops_per_job=4, same_mean_per_op=False), 1000)] * bulk(4)
     for (kw, B) in fj_plan:
         s = seed()
         g = FJSPGenerator(**kw)
@@ -173,10 +173,10 @@ def run_unit(ctx, proofs_ok):
     if thorough:
         js_shapes += [dict(num_jobs=15, num_machines=10), dict(num_jobs=10, num_machines=5, min_ops_per_job=3, max_ops_per_job=8, one2one_ma_map=False)]
     pads_with_machine = 0
-    js_plan = [(kw, B) for kw in js_shapes]
+    js_plan = [(kw, B0) for kw in js_shapes]
     if thorough:      # bulk: 10^4 small rows
-        js_plan += [(dict(num_jobs=3, num_machines=3), 1000)] * 6 + \
-                   [(dict(num_jobs=3, num_machines=2, min_ops_per_job=1, max_ops_per_job=3, one2one_ma_map=False), 1000)] * 4
+        js_plan += [(dict(num_jobs=3, num_machines=3), 1000)] * bulk(6) + \
+                   [(dict(num_jobs=3, num_machines=2, min_ops_per_job=1, max_ops_per_job=3, one2one_ma_map=False), 1000)] * bulk(4)
     for (kw, B) in js_plan:
         s = seed()
         g = JSSPGenerator(**kw)
@@ -199,10 +199,10 @@ def run_unit(ctx, proofs_ok):
     jobs.append(("jssp_prop", "Z * Z * inst", "check_jssp_prop", cases, metas, "jssp"))
 
     cases, metas = [], []
-    ff_plan = [(kw, B) for kw in [dict(), dict(num_stage=3, num_machine=2, num_job=5, min_time=1, max_time=4), dict(num_stage=1, num_machine=1, num_job=1, min_time=0, max_time=1),
+    ff_plan = [(kw, B0) for kw in [dict(), dict(num_stage=3, num_machine=2, num_job=5, min_time=1, max_time=4), dict(num_stage=1, num_machine=1, num_job=1, min_time=0, max_time=1),
                                   dict(num_stage=2, num_machine=4, num_job=20)]]
     if thorough:
-        ff_plan += [(dict(num_stage=2, num_machine=2, num_job=4), 1000)] * 10
+        ff_plan += [(dict(num_stage=2, num_machine=2, num_job=4), 1000)] * bulk(10)
     for (kw, B) in ff_plan:
         s = seed()
         g = FFSPGenerator(**kw)
@@ -216,10 +216,10 @@ def run_unit(ctx, proofs_ok):
     jobs.append(("ffsp_prop", "nat * nat * Z * Z * list (list Z)", "check_ffsp_prop", cases, metas, "ffsp"))
 
     cases, metas = [], []
-    sm_plan = [(kw, B) for kw in [dict(), dict(num_job=3), dict(num_job=25, max_time_span=25),
+    sm_plan = [(kw, B0) for kw in [dict(), dict(num_job=3), dict(num_job=25, max_time_span=25),
                                   dict(num_job=6, min_job_weight=0.5, max_job_weight=2.0, min_process_time=0.25, max_process_time=3.0)]]
     if thorough:
-        sm_plan += [(dict(num_job=5), 1000)] * 10
+        sm_plan += [(dict(num_job=5), 1000)] * bulk(10)
     for (kw, B) in sm_plan:
         s = seed()
         g = SMTWTPGenerator(**kw)
